@@ -44,6 +44,10 @@ type scenario struct {
 	// Crowd: this many further sources send one datagram each in the middle of A's burst (spoofable UDP
 	// sources are free): whatever the service does to bound its bookkeeping, A's allowance must not come back
 	Crowd int
+	// Reflect: after its first datagrams the source builds 60 more from what it was sent back (the last four bytes
+	// of a reply appended to a request, a reply echoed whole, ...): whatever the service hands out, it is no ticket
+	// past the allowance
+	Reflect bool
 }
 
 func mkScenario(seed int64, idx int) scenario {
@@ -61,6 +65,9 @@ func mkScenario(seed int64, idx int) scenario {
 		sc.N, sc.Eliciting, sc.Concurrent, sc.Others, sc.OtherN = 24, true, false, 0, 0
 		sc.Ports = r.PickI([]int{1, 24})
 		sc.Crowd = r.PickI([]int{300, 1100, 2500, 5000})
+	}
+	if idx%21 == 13 {
+		sc = scenario{Svc: sc.Svc, N: 3, Eliciting: false, Ports: 3, Reflect: true}
 	}
 	return sc
 }
@@ -106,7 +113,12 @@ func plan(seed int64, idx int, sc scenario) []dgram {
 	var a []dgram
 	for i := 0; i < sc.N; i++ {
 		var pl []byte
-		if sc.Eliciting {
+		if sc.Reflect && svcs[sc.Svc].Type != "counterstrike" {
+			pl = eliciting(sc.Svc, r)
+		} else if sc.Reflect {
+			// every query type once, the challenge request first
+			pl = [][]byte{{0xff, 0xff, 0xff, 0xff, 0x57}, {0xff, 0xff, 0xff, 0xff, 0x55, 0xff, 0xff, 0xff, 0xff}, append([]byte{0xff, 0xff, 0xff, 0xff, 0x54}, []byte("Source Engine Query\x00")...)}[i%3]
+		} else if sc.Eliciting {
 			pl = eliciting(sc.Svc, r)
 		} else {
 			pl = mixed(sc.Svc, r)
@@ -286,6 +298,45 @@ func (prop) Child(b core.Batch, o *core.Obs) {
 				break
 			}
 			time.Sleep(time.Millisecond)
+		}
+		if sc.Reflect {
+			var got [][]byte
+			for _, x := range xs {
+				if x.Conn.Raddr.IP.String() == ipA {
+					got = append(got, x.Snapshot()...)
+				}
+			}
+			r := core.NewRng(b.Seed, "C10/reflect", idx)
+			for i := 0; i < 60 && len(got) > 0; i++ {
+				rep := got[i%len(got)]
+				tail := rep
+				if len(tail) > 4 {
+					tail = tail[len(tail)-4:]
+				}
+				var pl []byte
+				switch i % 4 {
+				case 0:
+					pl = append(append([]byte{}, dgs[i%len(dgs)].Payload...), tail...)
+				case 1:
+					pl = append(append([]byte{}, eliciting(sc.Svc, r)...), tail...)
+				case 2:
+					pl = append([]byte{}, rep...)
+				default:
+					h := dgs[i%len(dgs)].Payload
+					if len(h) > 5 {
+						h = h[:5]
+					}
+					pl = append(append([]byte{}, h...), tail...)
+				}
+				send(dgram{ipA, 21000 + i, pl})
+			}
+			last, stableSince = -1, time.Now()
+			for time.Since(stableSince) < 40*time.Millisecond && time.Now().Before(deadline.Add(3*time.Second)) {
+				if _, _, tot := count(); tot != last {
+					last, stableSince = tot, time.Now()
+				}
+				time.Sleep(time.Millisecond)
+			}
 		}
 		ob.Replies, ob.Bytes, _ = count()
 		if sc.Crowd > 0 {
